@@ -242,7 +242,69 @@ CLAIMS["C12"] = dict(
          "group can be refilled. Check as for C11 with stream members.",
     note=TB + " slab modelled not verified.", design_ref="DESIGN.md §7 C12")
 
-PENDING = "theorem not yet proved in this revision; the property is exercised by the shared correspondence runs but not claimed"
-NOT_APPLICABLE = {p: PENDING for p in
-                  ["C13", "C14",
-                   "C15", "C18"]}
+CO_TB = ("Trusted: Lean 4.33 kernel (axioms propext, Quot.sound, Classical.choice at most, audited per run); the hand-written "
+         "acceptor Fc/CoSpec.lean, tied to /repo only by this check's trace validation: every trace the real code produces "
+         "must be accepted (sampled adapter stacks of depth <= 3, all four terminals, limits, scripted source and work "
+         "futures, wake-driven and spurious polls, drop points); futures-buffered::FuturesUnordered (bag semantics), "
+         "futures-lite next(), the async-fn lowering are modelled/observed, not verified.")
+
+CLAIMS["C13"] = dict(
+    text="Theorem C13_for_each (FcProps/C13.lean): for EVERY trace accepted by the operational model of the concurrent-"
+         "stream pipeline (Fc/CoSpec.lean: drive loop racing progress against the next source item, send with back-"
+         "pressure while count >= limit, flush; adapters map/enumerate/take/limit stacked to any depth; any resolution of "
+         "the bag's nondeterminism, any interleaving of source readiness and work-future progress, any limit): no closure "
+         "stage is called twice for the same item; whenever the terminal closure is called, the number of terminal-closure "
+         "futures created and neither completed nor dropped is at most the limit; for_each resolves only when every item "
+         "taken from the source went through every closure stage exactly once with its future resolved and the source was "
+         "drained as far as the adapters allow; when the drop of the operation returns, every work future ever created has "
+         "been dropped. The check re-proves, rebuilds the harness (std, alloc), drives the real for_each / try_for_each / "
+         "collect over 35 adapter stacks with scripted sources and work futures, validates every real trace against the "
+         "acceptor (refinement check) and evaluates holds_C13 on it.",
+    note=CO_TB, design_ref="DESIGN.md §7 C13, §3.5",
+    technique="Lean 4 theorem over all traces of an operational model (acceptor) + trace validation of the real code against it")
+
+CLAIMS["C14"] = dict(
+    text="Theorem C14_fallible (FcProps/C14.lean): for every trace accepted by the pipeline model, try_for_each and "
+         "collect::<Result<Vec,_>> resolve to Ok only if no work future ever returned an error, every taken item went "
+         "through every closure stage and the source was drained as far as the adapters allow; they resolve to Err(e) only "
+         "with an e some work future actually returned; once an error has been returned there is no further source poll, "
+         "work-future poll, closure call or Pending return (the operation resolves to the error in that very top-level "
+         "poll - whether it surfaced in send's back-pressure loop, in progress or in the final flush); every work future "
+         "ever created has been dropped when the drop returns. Check as for C13 with error-heavy scripts.",
+    note=CO_TB, design_ref="DESIGN.md §7 C14, §3.5",
+    technique="Lean 4 theorem over all traces of an operational model (acceptor) + trace validation of the real code against it")
+
+CLAIMS["C18"] = dict(
+    engine="lean-autotraits+rustc-probes",
+    text="Theorems C18_send_std/_alloc, C18_sync_std/_alloc (FcProps/C18.lean) over an environment GENERATED from /repo's "
+         "macro-expanded source on every run (translator tools/extract_types.py + gen_autotraits.py, 260 struct/enum "
+         "declarations per build incl. all 12 tuple arities of every combinator, array/Vec types, groups and keyed views, "
+         "waker containers, consumer and work-future types): for every declaration and EVERY assignment of auto traits to "
+         "the neutral types it depends on (type parameters and their associated outputs), if all of those are Send the "
+         "declaration is Send, and if all are Sync it is Sync - by a model of rustc's structural auto-trait derivation "
+         "(monotone in the assignment; the table is checked by kernel evaluation and lifted by the monotonicity lemma). "
+         "The opaque async-fn futures of for_each/try_for_each/collect/drive have no declaration: for them the check relies "
+         "on rustc probes (cargo check of /verif/probes against /repo in std/alloc/no_std): parametric obligations for "
+         "every public combinator type, concrete Send-only and Sync-only instantiations incl. tuple arities 1..12, and "
+         "the terminal operations with closures that are Send but not Sync.",
+    note="Trusted: Lean kernel; the translator (hand-written parser of rustc's expanded output) and the rule table for "
+         "external constructors (validated by the probes, not proved); rustc's trait solver for the probes. Partial: the "
+         "async-fn futures are covered by probes (concrete instantiations), not by theorem.",
+    design_ref="DESIGN.md §7 C18, §3.6",
+    technique="Lean 4 theorem over a model regenerated from the source by a translator + rustc trait-solver probes")
+
+CLAIMS["C15"] = dict(
+    text="Theorem C15_adapters (FcProps/C15.lean): for every trace accepted by the pipeline model, for every adapter "
+         "stack of any depth over {map, enumerate, take, limit} and every terminal: an item is taken from the source only "
+         "while every take(n) of the stack still has room (so never more than min n, and none at all when some take(0) is "
+         "present); every closure call for item j happens at most once per stage, for an item that was taken, and carries "
+         "j as each enumerate index in front of that stage (the position in the source, whatever the completion order); "
+         "collect (Vec and Ok(Vec)) resolves only when every taken item went through every stage once and the source was "
+         "drained as far as the adapters allow (it ended or a take is full - hence exactly min(n, len) items), and the "
+         "collected list is a permutation of one entry per taken item with its enumerate indices; for_each/try_for_each Ok "
+         "resolve only when drained. Check as for C13; the corpus replays the take(0) cases of the repaired defect D2.",
+    note=CO_TB + " take(0) relies on the fix: commit recorded in known_findings.json (D2).",
+    design_ref="DESIGN.md §7 C15, §3.5, §9 D2",
+    technique="Lean 4 theorem over all traces of an operational model (acceptor) + trace validation of the real code against it")
+
+NOT_APPLICABLE = {}
